@@ -20,6 +20,7 @@ from vsc.model.expr_array_subscript_model import ExprArraySubscriptModel
 from vsc.model.expr_bin_model import ExprBinModel
 from vsc.model.expr_fieldref_model import ExprFieldRefModel
 from vsc.model.expr_in_model import ExprInModel
+from vsc.model.expr_range_model import ExprRangeModel
 from vsc.model.expr_literal_model import ExprLiteralModel
 from vsc.model.field_array_model import FieldArrayModel
 from vsc.model.field_model import FieldModel
@@ -158,6 +159,9 @@ class VariableBoundVisitor(ModelVisitor):
                 isinstance(e.rhs, ExprArraySubscriptModel)):
                 return
             
+            if self.is_mixed_sign(e.lhs, e.rhs) or self.is_mixed_sign(e.rhs, e.lhs):
+                return
+            
             lhs_fm = Expr2FieldVisitor().field(e.lhs, fail_on_failure=False)
             rhs_fm = Expr2FieldVisitor().field(e.rhs, fail_on_failure=False)
 
@@ -202,6 +206,15 @@ class VariableBoundVisitor(ModelVisitor):
             if propagator is not None:
                 self.propagators.append(propagator)
                 
+    def is_mixed_sign(self, s_e, u_e):
+        """The solver compares a signed with an unsigned operand unsigned. 
+        The integer values the propagators work with are the values being 
+        compared only if the signed operand is a non-negative constant"""
+        if s_e.is_signed() and not u_e.is_signed():
+            return (not IsNonRandExprVisitor().is_nonrand(s_e) or 
+                    int(s_e.val()) < 0)
+        return False
+        
     def lhsvar_rhsvar_propagator(self,
                     lhs_bounds,
                     op,
@@ -341,6 +354,14 @@ class VariableBoundVisitor(ModelVisitor):
                     # Confirm that all expressions are non-random
                     is_nre = True
                     for r in e.rhs.rl:
+                        if isinstance(r, ExprRangeModel):
+                            for x in (r.lhs, r.rhs):
+                                if self.is_mixed_sign(x, e.lhs) or self.is_mixed_sign(e.lhs, x):
+                                    is_nre = False
+                        elif not isinstance(r, ExprFieldRefModel):
+                            if self.is_mixed_sign(r, e.lhs) or self.is_mixed_sign(e.lhs, r):
+                                is_nre = False
+                            
                         if isinstance(r, list):
                             is_nre &= is_nre_v.is_nonrand(r[0])
                             is_nre &= is_nre_v.is_nonrand(r[1])
